@@ -1,6 +1,6 @@
 """C03 - SMILES -> SELFIES -> SMILES preserves the molecule atom for atom."""
 from vmon import env, hooks, scopes, tablegen
-from vmon.hooks import MON
+from vmon.hooks import MON, call_guard
 from vmon.molgen import random_tree_mol, spell, macrocycle, from_read, GAtom, symbol_family_smiles
 from vmon.aromgen import standard_system, link_systems, pi_set, single_ring_bonds
 from vmon.matching import exact_pm
@@ -26,7 +26,7 @@ def shards(tier):
 
 def floors(tier):
     return {"roundtrips_ok": 5000, "M1.encoder_graphs": 5000, "M2.writes": 5000, "span>=17": 20,
-            "span>=257": 4, "dataset_ok": 300, "respelled_ok": 300, "mixed_label_spellings": 50, "loosened_table_molecules": 500, "encoder_rejects": 100, "aromatic_roundtrips_ok": 300, "symbol_family_ok": 150}
+            "span>=257": 4, "dataset_ok": 300, "respelled_ok": 300, "mixed_label_spellings": 50, "loosened_table_molecules": 500, "encoder_rejects": 100, "aromatic_roundtrips_ok": 300, "symbol_family_ok": 150, "decode_first_after_switch": 100, "encoder_flag_variants": 2000, "repeated_translations": 1000}
 
 
 def _nontrivial(m):
@@ -41,8 +41,13 @@ def run(ctx):
     rng = ctx.rng
     quick = ctx.tier == "quick"
 
+    recent = []
+
     def case(s, table, tname, src, check_stereo=False, extra=None):
         st, mi, mo, x = roundtrip(ctx, sf, s, table, check_stereo, src, extra)
+        if x:
+            recent.append(x)
+            del recent[:-20]
         ctx.case((tname, s), st == "ok" and _nontrivial(mi),
                  sample={"smiles": s[:200], "selfies": (x or "")[:200]} if (st == "ok" and len(s) > 12) else None)
         if st == "ok":
@@ -64,6 +69,11 @@ def run(ctx):
                 continue
             table = sf.get_semantic_constraints()
             tname = "t%d" % i
+            if recent and rng.random() < 0.5:
+                # the first call after the switch is a decode (of SELFIES made under the previous table), not an encode
+                for xx in recent[-5:]:
+                    call_guard(lambda: sf.decoder(xx), expected=(sf.DecoderError,))
+                ctx.count("decode_first_after_switch")
         gen_table = table
         if i % 5 == 4:
             # generated under a loosened table: some atoms sit above capacity.  The encoder should reject those;
